@@ -30,6 +30,8 @@ type ExecCase struct {
 	Layout  *model.Layout           `json:"layout,omitempty"`
 	Regime  string                  `json:"regime,omitempty"`
 	Text    string                  `json:"text,omitempty"` // informational: the printed document
+	// TypedSlices: list values of variables are handed over as []string, []int, []map[string]interface{} ... where homogeneous
+	TypedSlices bool `json:"typedSlices,omitempty"`
 }
 
 func (c *ExecCase) fix() {
@@ -41,7 +43,11 @@ func (c *ExecCase) fix() {
 func (c *ExecCase) goVars() map[string]interface{} {
 	out := map[string]interface{}{}
 	for k, v := range c.Vars {
-		out[k] = v.ToGo()
+		if c.TypedSlices {
+			out[k] = v.ToGoTyped()
+		} else {
+			out[k] = v.ToGo()
+		}
 	}
 	return out
 }
